@@ -64,7 +64,7 @@ Example allowPathNonBase_no_effect :
   let c := with_allowPathNonBase default_cfg true in
   exists u, Parse id_idna c (bs "mailto:a"%string) = PUrl u /\ u_opaque u = true /\
             SetPathname id_idna c u (bs "b"%string) = Some u.
-Proof. vm_compute. eexists; repeat split. Qed.
+Proof. cbv zeta. eexists. split; [vm_compute; reflexivity|]. split; vm_compute; reflexivity. Qed.
 
 (* ================================================================== *)
 (* N2  c_skipEq is read by sp_string only                              *)
@@ -109,7 +109,10 @@ Section N2.
   Proof. reflexivity. Qed.
   Lemma skipEq_sp_init q : sp_init (with_skipEq c b) q = sp_init c q.
   Proof.
-    unfold sp_init. f_equal.
+    unfold sp_init. apply flat_map_ext. intros q0. destruct q0 as [|q0 q1]; [reflexivity|].
+    destruct (cut 61 (q0 :: q1)) as [k v]. unfold sp_scalar. cbn [c_acceptInvalid with_skipEq].
+    rewrite !(dpe_congr (with_skipEq c b) c eq_refl). destruct v as [v|]; [|reflexivity].
+    rewrite !(dpe_congr (with_skipEq c b) c eq_refl). reflexivity.
   Qed.
 End N2.
 
@@ -149,3 +152,235 @@ Proof.
   rewrite Forall_forall in H. specialize (H _ Hin). cbn [fst snd] in *. destruct v; [congruence|reflexivity].
 Qed.
 Print Assumptions skipEq_neutral_nonempty.
+
+(* ================================================================== *)
+(* N3  c_acceptInvalid matters only at bytes that are not valid UTF-8  *)
+(* ================================================================== *)
+Definition no_bad (inp : list rune) : Prop := forall b, ~ In (Bad b) inp.
+
+Lemma nth_opt_In {A} (l : list A) : forall n x, nth_opt l n = Some x -> In x l.
+Proof.
+  induction l as [|y l IH]; intros n x H; [destruct n; discriminate|].
+  destruct n; cbn [nth_opt] in H.
+  - injection H as ->. left; reflexivity.
+  - right. apply (IH n x H).
+Qed.
+
+Lemma valid_no_bad s : valid_utf8 s = true -> no_bad (decode s).
+Proof.
+  unfold valid_utf8, no_bad. intros H b Hb. rewrite forallb_forall in H. specialize (H _ Hb). discriminate.
+Qed.
+
+(* removing tab/newline bytes keeps a valid UTF-8 string valid *)
+Lemma filter_flat_map {A B} (f : B -> bool) (h : A -> list B) l :
+  filter f (flat_map h l) = flat_map (fun x => filter f (h x)) l.
+Proof. induction l as [|x l IH]; [reflexivity|]. cbn [flat_map]. rewrite filter_app, IH. reflexivity. Qed.
+
+Lemma tabnl_small b : isTabOrNewline b = true -> b < 128.
+Proof.
+  unfold isTabOrNewline, bs_test, mem. intros H. apply existsb_exists in H as [x [Hx E]].
+  apply N.eqb_eq in E. subst x. vm_compute in Hx. intuition lia.
+Qed.
+
+Lemma filter_utf8_enc c0 :
+  filter (fun b => negb (isTabOrNewline b)) (utf8_enc c0) = if negb (isTabOrNewline c0) then utf8_enc c0 else [].
+Proof.
+  destruct (N.lt_ge_cases c0 128) as [L|G].
+  - rewrite (utf8_enc_ascii c0 L). cbn [filter]. destruct (negb (isTabOrNewline c0)); reflexivity.
+  - assert (E : isTabOrNewline c0 = false).
+    { destruct (isTabOrNewline c0) eqn:E; [|reflexivity]. apply tabnl_small in E. lia. }
+    rewrite E. cbn [negb]. pose proof (utf8_enc_high c0 G) as F.
+    induction F as [|x l Hx _ IH]; [reflexivity|]. cbn [filter].
+    assert (Ex : isTabOrNewline x = false).
+    { destruct (isTabOrNewline x) eqn:Ex; [|reflexivity]. apply tabnl_small in Ex. lia. }
+    rewrite Ex. cbn [negb]. rewrite IH. reflexivity.
+Qed.
+
+Lemma valid_remove_tabnl s : valid_utf8 s = true -> valid_utf8 (fst (remove_tabnl s)) = true.
+Proof.
+  intros H. unfold remove_tabnl. cbn [fst].
+  rewrite <- (to_valid_of_valid s H) at 1. unfold to_valid, encode_runes.
+  rewrite filter_flat_map.
+  assert (E : flat_map (fun x => filter (fun b => negb (isTabOrNewline b)) (utf8_enc x)) (runes s) =
+              encode_runes (filter (fun x => negb (isTabOrNewline x)) (runes s))).
+  { unfold encode_runes. induction (runes s) as [|x l IH]; [reflexivity|].
+    cbn [flat_map filter]. rewrite filter_utf8_enc, IH.
+    destruct (negb (isTabOrNewline x)); reflexivity. }
+  rewrite E. apply valid_encode_runes.
+  pose proof (runes_scalar s) as F. rewrite Forall_forall in *. intros x Hx. apply F.
+  apply filter_In in Hx. apply Hx.
+Qed.
+
+Section N3.
+  Variable idna_raw : str -> str * bool.
+  Variable c : cfg.
+  Variables b1 b2 : bool.
+
+  Lemma acceptInvalid_step inp base ov m : no_bad inp ->
+    step idna_raw (with_acceptInvalid c b1) inp base ov m = step idna_raw (with_acceptInvalid c b2) inp base ov m.
+  Proof.
+    intros H. apply step_eq_simple; try reflexivity; try (intros; reflexivity).
+    - repeat split; reflexivity.
+    - intros b Hb. exfalso. unfold rune_at in Hb. destruct (m_ptr m + 1 <? 0)%Z; [discriminate|].
+      apply nth_opt_In in Hb. exact (H b Hb).
+  Qed.
+
+  Theorem acceptInvalid_neutral_run inp base ov fuel m : no_bad inp ->
+    run idna_raw (with_acceptInvalid c b1) inp base ov fuel m = run idna_raw (with_acceptInvalid c b2) inp base ov fuel m.
+  Proof.
+    intros H. apply (run_sim_eq idna_raw _ _ inp base ov (fun _ => True)); auto.
+    intros; apply acceptInvalid_step, H.
+  Qed.
+
+  (* BasicParser reads the option a second time: when tab/newline bytes are removed from an input that is not
+     valid UTF-8 (remove_tabnl_sv). pre_input x u0 is the byte string handed to that removal: x itself when a
+     url argument is given, the trimmed x otherwise. *)
+  Theorem acceptInvalid_neutral x base u0 ov : valid_utf8 (pre_input x u0) = true ->
+    BasicParser idna_raw (with_acceptInvalid c b1) x base u0 ov = BasicParser idna_raw (with_acceptInvalid c b2) x base u0 ov.
+  Proof.
+    intros H. apply BasicParser_lift_eq_gen.
+    - repeat split. rewrite !(remove_tabnl_sv_valid _ _ H). reflexivity.
+    - intros v i. apply acceptInvalid_neutral_run, valid_no_bad. subst i. unfold cleaned.
+      rewrite (remove_tabnl_sv_valid _ _ H). apply valid_remove_tabnl, H.
+  Qed.
+
+  Corollary acceptInvalid_Parse x : valid_utf8 (fst (trim_c0space x)) = true ->
+    Parse idna_raw (with_acceptInvalid c b1) x = Parse idna_raw (with_acceptInvalid c b2) x.
+  Proof. intros H. apply to_pres_congr, acceptInvalid_neutral, H. Qed.
+  Corollary acceptInvalid_UrlParse bu x : valid_utf8 (fst (trim_c0space x)) = true ->
+    UrlParse idna_raw (with_acceptInvalid c b1) bu x = UrlParse idna_raw (with_acceptInvalid c b2) bu x.
+  Proof. intros H. apply to_pres_congr, acceptInvalid_neutral, H. Qed.
+
+  (* the other reader of the field: SearchParams.toScalarValueString *)
+  Theorem acceptInvalid_sp_scalar s : valid_utf8 s = true ->
+    sp_scalar (with_acceptInvalid c b1) s = s /\ sp_scalar (with_acceptInvalid c b2) s = s.
+  Proof. intros H. unfold sp_scalar. rewrite H, !Bool.orb_true_r. split; reflexivity. Qed.
+End N3.
+(* with the option on, sp_scalar is the identity on every string; off, it is the identity exactly on valid UTF-8 *)
+Lemma sp_scalar_accept c s : sp_scalar (with_acceptInvalid c true) s = s.
+Proof. reflexivity. Qed.
+Lemma sp_scalar_strict c s : sp_scalar (with_acceptInvalid c false) s = to_valid s.
+Proof.
+  unfold sp_scalar. cbn [c_acceptInvalid with_acceptInvalid orb].
+  destruct (valid_utf8 s) eqn:E; [symmetry; apply to_valid_of_valid, E|reflexivity].
+Qed.
+Print Assumptions acceptInvalid_neutral_run.
+Print Assumptions acceptInvalid_neutral.
+Print Assumptions acceptInvalid_sp_scalar.
+
+Example acceptInvalid_premise_ex : valid_utf8 (pre_input (bs "  http://exa mple.org/%zz	x "%string) None) = true.
+Proof. vm_compute. reflexivity. Qed.
+
+(* the premise is needed: an invalid byte in the host *)
+Lemma acceptInvalid_neutral_refuted : exists x,
+  Parse id_idna (with_acceptInvalid default_cfg true) x <> Parse id_idna (with_acceptInvalid default_cfg false) x.
+Proof. exists (bs "http://a"%string ++ [255] ++ bs "b/"%string). vm_compute. discriminate. Qed.
+Lemma sp_scalar_refuted : exists s,
+  sp_scalar (with_acceptInvalid default_cfg true) s <> sp_scalar (with_acceptInvalid default_cfg false) s.
+Proof. exists [255]. vm_compute. discriminate. Qed.
+
+(* ================================================================== *)
+(* N4  c_singlePct matters only at a '%' not followed by two hex digits *)
+(* ================================================================== *)
+(* every '%' among the code points is followed by two hex digits *)
+Fixpoint pct_ok_runes (l : list N) : bool :=
+  match l with
+  | [] => true
+  | _ :: t => negb (invalid_pct l) && pct_ok_runes t
+  end.
+
+Lemma pct_ok_skipn l : pct_ok_runes l = true -> forall n, invalid_pct (skipn n l) = false.
+Proof.
+  induction l as [|x l IH]; intros H n.
+  - destruct n; reflexivity.
+  - cbn [pct_ok_runes] in H. apply andb_true_iff in H as [H1 H2].
+    destruct n; cbn [skipn]; [apply negb_true_iff, H1|apply IH, H2].
+Qed.
+
+Lemma invalid_pct_cons r l :
+  invalid_pct (r :: l) =
+  (r =? 37) && match l with a :: b :: _ => negb (isHexDigit a && isHexDigit b) | _ => true end.
+Proof.
+  destruct (r =? 37) eqn:E.
+  - apply N.eqb_eq in E. subst r. destruct l as [|a [|b l]]; reflexivity.
+  - cbn [andb]. destruct r as [|p]; [reflexivity|].
+    do 6 (destruct p as [p|p|]; try reflexivity). discriminate E.
+Qed.
+
+Lemma pes_loop_singlePct c b1 b2 tr l : pct_ok_runes l = true ->
+  pes_loop (with_singlePct c b1) tr l = pes_loop (with_singlePct c b2) tr l.
+Proof.
+  induction l as [|r l IH]; intros H; [reflexivity|].
+  cbn [pct_ok_runes] in H. apply andb_true_iff in H as [H1 H2]. apply negb_true_iff in H1.
+  rewrite invalid_pct_cons in H1. cbn [pes_loop]. rewrite H1, (IH H2). cbn [andb].
+  rewrite !(per_congr (with_singlePct c b1) (with_singlePct c b2) eq_refl). reflexivity.
+Qed.
+
+Section N4.
+  Variable idna_raw : str -> str * bool.
+  Variable c : cfg.
+  Variables b1 b2 : bool.
+  Notation c1 := (with_singlePct c b1).
+  Notation c2 := (with_singlePct c b2).
+
+  Theorem singlePct_PercentEncodeString s tr : pct_ok_runes (runes s) = true ->
+    PercentEncodeString c1 s tr = PercentEncodeString c2 s tr.
+  Proof. apply pes_loop_singlePct. Qed.
+
+  Corollary singlePct_SetUsername u s : pct_ok_runes (runes s) = true -> SetUsername c1 u s = SetUsername c2 u s.
+  Proof. intros H. unfold SetUsername. rewrite (singlePct_PercentEncodeString s _ H). reflexivity. Qed.
+  Corollary singlePct_SetPassword u s : pct_ok_runes (runes s) = true -> SetPassword c1 u s = SetPassword c2 u s.
+  Proof. intros H. unfold SetPassword. rewrite (singlePct_PercentEncodeString s _ H). reflexivity. Qed.
+
+  Hypothesis Hlax : c_lax c = false.
+
+  Lemma singlePct_step inp base ov m : pct_ok_runes (map rv inp) = true ->
+    step idna_raw c1 inp base ov m = step idna_raw c2 inp base ov m.
+  Proof.
+    intros H. apply step_eq_simple; try reflexivity; try (intros; reflexivity).
+    - repeat split; reflexivity.
+    - cbn [c_lax with_singlePct]. rewrite Hlax. discriminate.
+    - intros Hi. exfalso. unfold rest_from in Hi. rewrite <- skipn_map in Hi.
+      rewrite (pct_ok_skipn _ H) in Hi. discriminate.
+  Qed.
+
+  Theorem singlePct_neutral_run inp base ov fuel m : pct_ok_runes (map rv inp) = true ->
+    run idna_raw c1 inp base ov fuel m = run idna_raw c2 inp base ov fuel m.
+  Proof.
+    intros H. apply (run_sim_eq idna_raw _ _ inp base ov (fun _ => True)); auto.
+    intros; apply singlePct_step, H.
+  Qed.
+
+  Theorem singlePct_neutral x base u0 ov : pct_ok_runes (runes (cleaned (c_acceptInvalid c) x u0)) = true ->
+    BasicParser idna_raw c1 x base u0 ov = BasicParser idna_raw c2 x base u0 ov.
+  Proof.
+    intros H. apply BasicParser_lift_eq; try reflexivity. intros v i.
+    apply singlePct_neutral_run, H.
+  Qed.
+
+  Corollary singlePct_Parse x : pct_ok_runes (runes (clean_sv (c_acceptInvalid c) x)) = true -> Parse idna_raw c1 x = Parse idna_raw c2 x.
+  Proof. intros H. apply to_pres_congr, singlePct_neutral, H. Qed.
+  Corollary singlePct_UrlParse bu x : pct_ok_runes (runes (clean_sv (c_acceptInvalid c) x)) = true ->
+    UrlParse idna_raw c1 bu x = UrlParse idna_raw c2 bu x.
+  Proof. intros H. apply to_pres_congr, singlePct_neutral, H. Qed.
+End N4.
+Print Assumptions singlePct_PercentEncodeString.
+Print Assumptions singlePct_neutral_run.
+Print Assumptions singlePct_neutral.
+
+Example singlePct_premise_ex :
+  c_lax default_cfg = false /\ pct_ok_runes (runes (clean (bs "http://h/a%20b%C3%A9?x=%41#%7e"%string))) = true.
+Proof. split; vm_compute; reflexivity. Qed.
+
+(* the premise on the input is needed *)
+Lemma singlePct_neutral_refuted : exists x,
+  Parse id_idna (with_singlePct default_cfg true) x <> Parse id_idna (with_singlePct default_cfg false) x.
+Proof. exists (bs "http://h/a%zz"%string). vm_compute. discriminate. Qed.
+
+(* and so is c_lax = false: under lax host parsing the output of the IDNA step is percent-encoded with the host set,
+   and a '%' produced by DECODING the host ("%25" -> "%") is then treated as a single percent sign *)
+Lemma singlePct_neutral_lax_refuted : exists x,
+  pct_ok_runes (runes (clean x)) = true /\
+  Parse id_idna (with_singlePct (with_lax default_cfg true) true) x <>
+  Parse id_idna (with_singlePct (with_lax default_cfg true) false) x.
+Proof. exists (bs "http://a%25b/"%string). split; [vm_compute; reflexivity|vm_compute; discriminate]. Qed.
